@@ -33,7 +33,11 @@ CHECKS = {
     "C08": ("kv.checks.structure", "C08"),
     "C09": ("kv.checks.structure", "C09"),
     "C11": ("kv.checks.prims", "C11"),
+    "C12": ("kv.checks.types", "C12"),
     "C13": ("kv.checks.structure", "C13"),
+    "C15": ("kv.checks.values", "C15"),
+    "C17": ("kv.checks.records", "C17"),
+    "C18": ("kv.checks.records", "C18"),
     "C14": ("kv.checks.structure", "C14"),
 }
 
